@@ -51,6 +51,7 @@ class Spec:
     edge_in_domain: bool = False                        # C13: the edge stream is inside the quantifier
     image_folder: bool = False
     part_level: bool = False                             # also compare each part's MERGED element tree with the model
+    extra_corr: Callable | None = None                   # (model, data, archive_case) -> corr dict | None
 
 
 SPECS: dict[str, Spec] = {}
@@ -254,6 +255,8 @@ def eval_case(state, arg):
                                "model": repr(d[2])[:300] if d else None}
     if spec.part_level and state["model"] is not None and res["corr"] is None:
         res["corr"] = part_level_corr(state["model"], data)
+    if spec.extra_corr and state["model"] is not None and res["corr"] is None:
+        res["corr"] = spec.extra_corr(state["model"], data, case0[3])
     ctx = {"pkg": pkg, "data": data, "per": {k: Obs(v[0]) for k, v in per.items()},
            "features": feats, "payloads": payloads, "stream": stream}
     res["exc"] = sum(1 for o in ctx["per"].values() if o.any_exc())
@@ -265,6 +268,34 @@ def eval_case(state, arg):
             res["fails"] = [["oracle_crash", f"{type(ex).__name__}: {ex} {traceback.format_exc()[-400:]}"]]
     res["features"] = sorted(feats)
     return res
+
+
+def utilities_corr(which):
+    """correspondence of utilities.get_links / get_headings (Utilities.v) with /repo"""
+    def corr(model, data, arch):
+        import shutil
+        import tempfile
+        from docx2python.utilities import get_headings, get_links
+        from impl_pkg import grab
+        tmp = tempfile.mkdtemp(prefix="d2p_u_")
+        try:
+            pth = os.path.join(tmp, "a.docx")
+            with open(pth, "wb") as fh:
+                fh.write(data)
+            import warnings
+            with warnings.catch_warnings():
+                warnings.simplefilter("ignore")
+                impl = [grab(lambda: [[common.S(h), common.S(t)] for h, t in get_links(pth)]),
+                        grab(lambda: [[common.S(r) for r in rs] for rs in get_headings(pth)])]
+        finally:
+            shutil.rmtree(tmp, ignore_errors=True)
+        mod = model.run([10, arch])
+        i = 0 if which == "links" else 1
+        if impl[i] != mod[i]:
+            return {"opts": [which == "headings", True], "what": f"utilities.get_{which}",
+                    "impl": repr(impl[i])[:300], "model": repr(mod[i])[:300]}
+        return None
+    return corr
 
 
 def _pkg_key(pkg) -> str:
